@@ -658,12 +658,15 @@ fn viol(rule: &str, site: &str, idx: u64, expected: String, observed: String) ->
 
 /// Input contexts for evaluation: empty, and per input data of the (faulted) model a value of the
 /// declared kind, of a wrong kind, and null; plus the inputs of the compliance tests of the base model.
+/// Number of the input classes made of values of some size or shape (after the four basic classes).
+const BIG_CLASSES: usize = 11;
+
 fn input_contexts(defs: &dmntk_model::model::Definitions, base: &str) -> Vec<FeelContext> {
   let mut right = vec![];
   let mut wrong = vec![];
   let mut nulls = vec![];
   // wrong-kind values of some size: long multi-byte strings behind 0..3 ASCII bytes, a long list, a deep context
-  let mut big: Vec<Vec<String>> = vec![vec![], vec![], vec![], vec![], vec![], vec![], vec![]];
+  let mut big: Vec<Vec<String>> = vec![vec![]; BIG_CLASSES];
   for id in defs.input_data() {
     let name = id.name().to_string();
     if name.is_empty() || name.contains('"') || name.contains(':') || name.contains('{') || name.contains('}') || name.contains(',') {
@@ -691,6 +694,25 @@ fn input_contexts(defs: &dmntk_model::model::Definitions, base: &str) -> Vec<Fee
     big[4].push(format!("{}: [{}]", name, (0..40).map(|i| i.to_string()).collect::<Vec<_>>().join(", ")));
     big[5].push(format!("{}: {}{}{}", name, "{k: ".repeat(40), "-99999999999999999999999999999999.5", "}".repeat(40)));
     big[6].push(format!("{}: {}1{}", name, "[".repeat(40), "]".repeat(40)));
+    // shapes: an empty list, a list of a null, an empty context and a list; an empty context; the components of
+    // the declared item definition (when it has some) all null, one of them a list holding a null, one extra
+    big[7].push(format!("{}: []", name));
+    big[8].push(format!("{}: [null, {{}}, [null]]", name));
+    big[9].push(format!("{}: {{}}", name));
+    let components: Vec<String> = defs
+      .item_definitions()
+      .iter()
+      .find(|d| d.name() == ty.as_str())
+      .map(|d| d.item_components().iter().map(|c| c.name().to_string()).filter(|n| !n.is_empty() && n.chars().all(|ch| ch.is_alphanumeric() || ch == ' ' || ch == '_')).collect())
+      .unwrap_or_default();
+    if components.is_empty() {
+      big[10].push(format!("{}: {{a: null, b: [{{a: null}}, null]}}", name));
+    } else {
+      let inner: Vec<String> = components.iter().enumerate().map(|(i, c)| if i == 0 { format!("{}: [{{{}: null}}, null]", c, c) } else { format!("{}: null", c) }).collect();
+      big[10].push(format!("{}: {{{}, zzz unknown: 1}}", name, inner.join(", ")));
+      big[7].pop();
+      big[7].push(format!("{}: [{{{}}}, null, {{{}: 1}}]", name, inner.join(", "), components[0]));
+    }
   }
   let mut texts = vec!["{}".to_string(), format!("{{{}}}", right.join(", ")), format!("{{{}}}", wrong.join(", ")), format!("{{{}}}", nulls.join(", "))];
   if !right.is_empty() {
@@ -839,12 +861,16 @@ fn direct_path(text: &str, base: &str, desc: &str, only: Option<(&str, usize)>, 
   };
   let names = invocable_names(&defs);
   let inputs = input_contexts(&defs, base);
+  // every case takes half of the size-and-shape classes, which half depends on the text
+  let rotation = text.len() + text.bytes().take(4096).map(|b| b as usize).sum::<usize>();
   for name in &names {
     for (input_index, input) in inputs.iter().enumerate() {
       if let Some((only_name, only_input)) = only {
         if only_name != name || only_input != input_index {
           continue;
         }
+      } else if (4..4 + BIG_CLASSES).contains(&input_index) && inputs.len() >= 4 + BIG_CLASSES && (rotation + input_index) % 2 == 1 {
+        continue;
       }
       crate::driver::mark(&format!("evaluate|{}|{}", input_index, name));
       c.inc("evaluations");
